@@ -71,10 +71,13 @@ class Bag(object):
         """Add a type to the bag. If multiple types are given, the union of 
         these types is added."""
 
-        # Any disjuncts that are covered already by other types in the bag can 
-        # be dropped
-        new = TypeUnion(nt for nt in new_types
-            if not any(t.is_subtype(nt) for t in self.content))
+        # A disjunct that is implied by a clause already in the bag makes the
+        # whole new clause redundant
+        if any(t.is_subtype(nt) for nt in new_types for t in self.content):
+            return
+
+        # Of the disjuncts, only the most general ones matter
+        new = TypeUnion(new_types, specific=False)
 
         if not new:
             return
